@@ -45,6 +45,7 @@ def run(chk):
     chk.rule("R2", "ORDER BY composition: arrange prepends, summarize/union clear, other verbs keep; Polars sorts stably")
     chk.rule("R3", "flag mapping for descending / nulls_last on SQL and Polars, marker peeling in Order.from_col_expr")
     chk.rule("R4", "grouping state injected as partition_by for every non-element-wise function type")
+    chk.rule("R10", "end-to-end simulation: ORDER BY of the compiled statement lists every arrange since the last summarize, latest first, on every verb sequence up to the bound")
     chk.rule("R9", "running aggregates (cum_sum) order ties: every SQL back end appends the random tie-breaker to ORDER BY inside OVER(), except the listed engines that cannot (one reason each); the base implementation returns True")
     chk.rule("R5", "partition_by / order_by reach OVER() unswapped on both back ends; shift offset sign -> LAG / LEAD")
     chk.rule("R8", "Polars window functions without partition: arrange= takes effect for every argument count (finite-domain evaluation of the ColFn branch)")
@@ -140,6 +141,10 @@ def run(chk):
     uses = [c for c in calls_in(pf2) if dotted(c.func) == "merge_desc_nulls_last"]
     chk.ob("R6", pol, pf2, "merge_desc_nulls_last feeds over(order_by=) and the rank struct", len(uses) >= 2 and all([norm(a) for a in c.args] == ["order_by", "descending", "nulls_last"] for c in uses),
            "the descending / nulls_last emulation is not applied (or with permuted arguments) where the ordering reaches `over` / rank")  # fmt: skip
+
+    from .. import pipesim as _ps
+
+    _ps.report(chk, m, "R10", ['order'], depth_quick=2, depth_thorough=3, floor=100)
 
     # ---- R9 who may switch the tie-breaker off (without it, rows with equal keys are peers of the default RANGE frame and all
     # receive the sum of the whole tie group - not a running sum along any order)
